@@ -18,6 +18,11 @@ STD_CD = [0.2, 0.4, 0.3, 0.25, 0.22, 0.21, 0.2]
 POINT_LISTS = ("{ <<<<30, 2>>>>, <<<<20, 0>>, <<30, 4>>>>, <<<<30, 4>>, <<20, 0>>>>, <<<<50, 3>>, <<20, 1>>, <<30, 7>>>>, "
                "<<<<30, 7>>, <<50, 3>>, <<20, 1>>>>, <<<<20, 2>>, <<50, 6>>>>, <<<<25, 8>>, <<45, 5>>>>, "
                "<<<<20, 2>>, <<50, 4>>, <<30, 8>>>>, <<<<30, 0>>, <<20, 4>>, <<50, 6>>>> }")   # the last two: end points ON table nodes
+# a COARSE table (nodes 2 Mach apart) with 4 and 5 BC points, two or three of them strictly between the same pair of table rows,
+# in ascending, descending and scrambled order
+POINT_LISTS_COARSE = ("{ <<<<20, 1>>, <<30, 5>>, <<50, 6>>, <<25, 11>>>>, <<<<25, 11>>, <<50, 6>>, <<30, 5>>, <<20, 1>>>>, "
+                      "<<<<30, 1>>, <<20, 2>>, <<50, 3>>, <<40, 9>>, <<25, 12>>>>, <<<<40, 9>>, <<30, 1>>, <<25, 12>>, <<50, 3>>, <<20, 2>>>>, "
+                      "<<<<45, 5>>, <<20, 7>>, <<35, 10>>, <<50, 11>>>>, <<<<20, 0>>, <<50, 9>>, <<30, 10>>, <<40, 11>>, <<25, 12>>>> }")
 SOUND = None
 
 
@@ -27,12 +32,15 @@ def sound_mps():
     return math.sqrt(15.0 + 273.15) * 20.0467
 
 
-def design(chk, builds):
-    d = dict(G=4, PointLists=POINT_LISTS, AllocRule='"fresh"', MaxBuilds=builds)
+def design(chk, builds, coarse=False):
+    d = dict(G=3 if coarse else 4, PointLists=POINT_LISTS_COARSE if coarse else POINT_LISTS, Stride=2 if coarse else 1,
+             AllocRule='"fresh"', MaxBuilds=builds)
     body = ("SPECIFICATION Spec\nINVARIANT C14_RealisesLaw\nPROPERTY C14_NoInputMutation\nPROPERTY C14_SharedModelUnaffected\n"
             "INVARIANT C14_Idempotent\nINVARIANT C14_OrderInsensitive\n")
     cfg, defs = core.consts(d)
-    chk.tlc(core.run_tlc("MultiBC", cfg + body, defs=defs, coverage=True), f"MultiBC {builds} builds")
+    chk.tlc(core.run_tlc("MultiBC", cfg + body, defs=defs, coverage=True), f"MultiBC {builds} builds" + (" (coarse table)" if coarse else ""))
+    if coarse:
+        return d
     cfg, defs = core.consts(dict(d, AllocRule='"asis"', MaxBuilds=2))
     r = core.run_tlc("MultiBC", cfg + "SPECIFICATION Spec\nPROPERTY C14_NoInputMutation\nPROPERTY C14_SharedModelUnaffected\n", defs=defs)
     chk.tlc_runs.append({"what": "MultiBC AllocRule=asis (expected counterexample)", "violated": r.violated})
@@ -54,15 +62,14 @@ def snapshot(m, objs):
     return snap
 
 
-def replay(chk, behs, rng):
+def replay(chk, behs, rng, G=4, stride=1):
     m = impl.pb()
     U = m.Unit
-    G = 4
     c_mps = sound_mps()
     vel_units = ["MPS", "FPS", "KMH", "MPH", "KT"]
     for bi, b in enumerate(behs):
         core.reset_world()
-        std = [{"Mach": float(k), "CD": STD_CD[k]} for k in range(G + 1)]
+        std = [{"Mach": float(k * stride), "CD": STD_CD[k]} for k in range(G + 1)]
         objs = {"std": std}
         models, depth, modelbc, tols = [], [], [], []
         with_sd = bi % 3 == 1
@@ -194,12 +201,19 @@ def run(chk: core.Check, replay_path=None, **_):
         behs = behs[:20000]
         chk.exhaustive = False
     replay(chk, behs, rng)
+    # the coarse table: 4-5 BC points, several of them between the same two table rows
+    dc = design(chk, 2, coarse=True)
+    cfgc, defsc = core.consts(dict(dc, MaxBuilds=2))
+    genc = core.run_tlc("Gen_MultiBC", cfgc + "SPECIFICATION GenSpec\nINVARIANT Emit\n", defs=defsc, workers=1, tags=["BEH"], timeout=1800)
+    chk.tlc(genc, "Gen_MultiBC (coarse table, 4-5 points)")
+    replay(chk, genc.out("BEH"), rng, G=3, stride=2)
+    chk.stratum("several_points_between_two_table_rows")
     single_equals_plain(chk, rng)
     shipped_heap(chk, rng)
     chk.sample({"history": behs[len(behs) // 2]})
-    chk.require_strata(["preferred_units_changed_between_builds", "build_from_standard", "build_from_other-model", "table_as_dicts", "table_as_datapoints", "single_point",
+    chk.require_strata(["several_points_between_two_table_rows", "preferred_units_changed_between_builds", "build_from_standard", "build_from_other-model", "table_as_dicts", "table_as_datapoints", "single_point",
                         "single_equals_plain", "shipped_heap"])
-    chk.rule.append("every build history of %d builds over 9 point lists (1-3 points, several orders, on and between nodes) x source "
+    chk.rule.append("every build history of %d builds over 9 point lists (1-3 points, several orders, on and between nodes) and, on a coarse table, 6 lists of 4-5 points with several points between two table rows x source "
                     "(standard table as dicts / caller-owned data points / another model's table by reference), points by Mach or by "
                     "velocity in rotating units, with and without weight+diameter; non-trivial = a build with >= 2 BC points"
                     % (4 if thorough else 3))
